@@ -115,24 +115,41 @@ Definition model_dec (data : bytes) : dec_obs :=
     (byron_from_bytes crc32 data)
     (reward_address_decode data).
 
-Definition judge_dec (data : bytes) (o : dec_obs) : verdict :=
+(* the two halves of the statement are judged independently; a failure outside the known classes
+   is never hidden by a known one *)
+Definition judge_dec_strict (data : bytes) (o : dec_obs) : verdict :=
+  match d_strict o with
+  | Ok a =>
+      if spec_strict_ok data && agrees_with_header a data
+         && (match d_acc o with
+             | Some x => acc_agrees x data && res_eqb N.eqb (a_net x) (network_id a)
+             | None => false
+             end)
+         && res_eqb address_eqb (d_reparsed o) (Ok a)
+         && res_eqb address_eqb (d_reward o) (match a with Reward _ _ => Ok a | _ => Err end)
+      then Holds else Fails 0
+  | Err => if spec_strict_ok data then Fails 0 else
+           (match d_reward o with Err => Holds | _ => Fails 0 end)
+  | _ => Fails (panic_class data)
+  end.
+
+Definition judge_dec_embedded (data : bytes) (o : dec_obs) : verdict :=
   match d_embedded o, d_emb_bytes o with
-  | Ok _, Some wb =>
-      if bytes_eqb wb data then
-        match d_strict o with
-        | Ok a =>
-            if spec_strict_ok data && agrees_with_header a data
-               && (match d_acc o with Some x => acc_agrees x data | None => false end)
-               && res_eqb address_eqb (d_reparsed o) (Ok a)
-               && res_eqb address_eqb (d_reward o) (match a with Reward _ _ => Ok a | _ => Err end)
-            then Holds else Fails 0
-        | Err => if spec_strict_ok data then Fails 0 else
-                 (match d_reward o with Err => Holds | _ => Fails 0 end)
-        | _ => Fails (panic_class data)
-        end
-      else Fails (lenient_class data)
+  | Ok _, Some wb => if bytes_eqb wb data then Holds else Fails (lenient_class data)
   | _, _ => Fails (panic_class data)
   end.
+
+Definition combine (a b : verdict) : verdict :=
+  match a, b with
+  | Fails c, Fails d => if c =? 0 then Fails 0 else if d =? 0 then Fails 0 else Fails c
+  | Fails c, _ => Fails c
+  | _, Fails d => Fails d
+  | NotApplicable, x => x
+  | x, _ => x
+  end.
+
+Definition judge_dec (data : bytes) (o : dec_obs) : verdict :=
+  combine (judge_dec_strict data o) (judge_dec_embedded data o).
 
 (* ---------------- case `enc`: an address value ---------------- *)
 Definition cred_okb (c : cred) : bool :=
@@ -173,6 +190,7 @@ Definition judge_enc (a : address) (o : enc_obs) : verdict :=
   if wf_addressb a then
     if res_eqb address_eqb (e_strict o) (Ok a) && res_eqb address_eqb (e_embedded o) (Ok a)
        && agrees_with_header a (e_bytes o) && acc_agrees (e_acc o) (e_bytes o)
+       && res_eqb N.eqb (a_net (e_acc o)) (network_id a)
        && (match e_bech32 o with Some r => res_eqb address_eqb r (Ok a) | None => true end)
        && (match a, e_base58_back o with
            | Byron b, Some r => res_eqb byron_eqb r (Ok b)
